@@ -86,10 +86,11 @@ def _free(t):
 class SymTeam:
     """a team with a symbolic number of members (see the module docstring)"""
 
-    def __init__(self, ctx, rating_cls, index, tag="", sigma_pos=True):
+    def __init__(self, ctx, rating_cls, index, tag="", sigma_pos=True, L=None):
+        """L: a shared size symbol (teams of equal, symbolic size)"""
         self.index = self._pyvc_index = index
         self.tag = tag
-        self.L = z3.Int(f"{tag}L_{index}")
+        self.L = L if L is not None else z3.Int(f"{tag}L_{index}")
         self.k = z3.Int(f"{tag}k_{index}")
         mu, sg = ctx.real(f"{tag}mu_{index}_k"), ctx.real(f"{tag}sg_{index}_k")
         self.sym = {"mu": mu.t, "sigma": sg.t}
@@ -686,3 +687,16 @@ REBINDS = {
 }
 from .symrt import TYPE_ALIASES  # noqa: E402
 TYPE_ALIASES[t_list] = list
+
+
+def scratch(model):
+    """scratch copies for teams of symbolic size: the run-time dispatch of `for` loops / comprehensions
+    and the rebound builtins are installed in the model module *and* in the two shared modules (a helper
+    that a clean-up moved into weng_lin/common.py must meet a team the same way)"""
+    from . import extract
+    trs = {extract.MODEL_FILES[model]: (FoldLoops(),), extract.WL_COMMON: (FoldLoops(),), extract.COMMON: (FoldLoops(),)}
+    S = extract.Scratch(model, transforms=trs)
+    for ns in [S.ns, S.wl, S.common] + [v for k, v in S.sources.items() if v is not S.wl and v is not S.common]:
+        ns.update(REBINDS)
+    S.loops_rewritten = [x for tr in trs.values() for x in tr[0].rewritten]
+    return S
